@@ -3,6 +3,7 @@ package main
 // Property checks: baseline comparison, known findings, evidence, exit codes.
 
 import (
+	"golang.org/x/tools/go/ssa"
 	"crypto/sha256"
 	"encoding/hex"
 	"encoding/json"
@@ -102,6 +103,43 @@ func (c *Ctx) propFunctions(prop string) []string {
 		}
 		if serves {
 			keys = append(keys, k)
+		}
+	}
+	// a tagged precondition is discharged in the callers: include the functions under contract
+	// that call a function whose requires clause carries the property tag
+	tagged := map[*ssa.Function]bool{}
+	for _, k := range c.contracts.Order {
+		fc := c.contracts.Funcs[k]
+		for _, cl := range fc.Requires {
+			if cl.Tags[prop] && c.funcByKey[k] != nil {
+				tagged[c.funcByKey[k]] = true
+			}
+		}
+	}
+	if len(tagged) > 0 {
+		have := map[string]bool{}
+		for _, k := range keys {
+			have[k] = true
+		}
+		for _, k := range c.contracts.Order {
+			fc := c.contracts.Funcs[k]
+			fn := c.funcByKey[k]
+			if have[k] || fc.Trusted || fc.Assumed || fn == nil {
+				continue
+			}
+			calls := false
+			for _, b := range fn.Blocks {
+				for _, in := range b.Instrs {
+					if ci, ok := in.(ssa.CallInstruction); ok {
+						if sc := ci.Common().StaticCallee(); sc != nil && tagged[sc] {
+							calls = true
+						}
+					}
+				}
+			}
+			if calls {
+				keys = append(keys, k)
+			}
 		}
 	}
 	return keys
@@ -334,6 +372,22 @@ func cmdCheck(repo, verif, prop, tier string) int {
 		}
 	}
 
+	// second attempt with a longer limit for obligations that discharged on the unchanged tree and
+	// are undecided now (at most 24 of them: a real change leaves many, and those stay undecided)
+	if tier == "quick" {
+		var again []*Oblig
+		for _, o := range pr.obligs {
+			be, inBase := base[o.Name]
+			if o.Status == "undecided" && o.Kind != "vacuity" && (!inBase || be.Status == "discharged") && len(again) < 24 {
+				again = append(again, o)
+			}
+		}
+		for _, o := range again {
+			o.Status, o.Solver, o.Confirm = "", "", nil
+		}
+		SolveAll(again, dir, "retry", seed+3, 4)
+	}
+
 	replayDir := filepath.Join(evDir, "replays", prop)
 	os.RemoveAll(replayDir)
 	violations := 0
@@ -443,6 +497,23 @@ func cmdCheck(repo, verif, prop, tier string) int {
 	// claimed obligations that disappeared together with their function are covered by `detached`.
 	var proofLost []string
 	for _, s := range pr.stale {
+		if i := strings.Index(s, ": contract structure lost"); i >= 0 {
+			// the loop (or loop kind) an invariant is attached to is gone: every obligation of the
+			// function that discharged on the unchanged tree can no longer be established. Unlike an
+			// identifier that merely stopped resolving (PROOF-LOST below: a rename), this is a change
+			// of the iteration structure the proof rests on, and it is reported as a violation.
+			fnKey := s[:i]
+			had := false
+			for name, be := range base {
+				if strings.HasPrefix(name, fnKey+"/") && be.Status == "discharged" {
+					had = true
+				}
+			}
+			if had {
+				violate(fnKey+"/proof-structure", "the obligations of this function discharged on the unchanged tree and can no longer be established: "+s[i+2:], nil)
+				continue
+			}
+		}
 		proofLost = append(proofLost, s)
 		lines = append(lines, "PROOF-LOST: "+s)
 	}
